@@ -105,7 +105,8 @@ def main(pid, tier, seed, replay=None):
     # 1. proof obligations (Generated.v is re-extracted from the source first)
     stale = aglib.regen_facts()
     coverage['facts_stale'] = stale
-    if tier == 'thorough':
+    deep_only = bool(os.environ.get('AGV_DEEP_ONLY'))      # exploration depth of the thorough tier without the clean rebuild + coqchk
+    if tier == 'thorough' and not deep_only:
         aglib.sh(['make', 'clean'], cwd=aglib.COQ, check=False)
     hyg = aglib.hygiene()
     proof = aglib.check_property_file(pid)
@@ -118,7 +119,7 @@ def main(pid, tier, seed, replay=None):
         'trusted_base': getattr(mod, 'TRUSTED_BASE', []) + aglib_trusted_base(),
         'hygiene_problems': hyg,
     })
-    if tier == 'thorough' and proof_ok:
+    if tier == 'thorough' and proof_ok and not deep_only:
         rc, chk = aglib.coqchk(pid)
         coverage['coqchk'] = chk[-1500:]
         if rc != 0:
